@@ -192,6 +192,16 @@ class SymInt(_Num):
         return self.__index__()
 
 
+def sym_trunc(x):
+    """int(x) for a symbolic real: truncation towards zero"""
+    n = core.fresh_int('pytrunc')
+    r = z3.ToReal(n)
+    core.assume(z3.If(x.t >= 0, z3.And(r <= x.t, x.t < r + 1), z3.And(r >= x.t, x.t > r - 1)))
+    if core.CTX is not None:
+        core.ctx().log.append(('pytrunc', x.t, n))
+    return SymInt(n)
+
+
 def sym_min(a, b):
     ta, ia = _lift(a)
     tb, ib = _lift(b)
